@@ -131,12 +131,14 @@ Record view := {
   v_inq : list N;                (* ids of own QoS 1/2 publishes on this connection without PUBACK / PUBCOMP yet *)
   v_fwd : list N;                (* own messages forwarded so far *)
   v_prev : list (N * srec);      (* in-flight snapshot before the step *)
-  v_err : bool }.                (* the client itself broke the protocol (acknowledgement of the wrong kind for a
+  v_err : bool;                (* the client itself broke the protocol (acknowledgement of the wrong kind for a
                                     message it holds): the properties presuppose a compliant client, monitoring stops *)
+  v_resent : list N }.           (* messages whose first transmission came out of the stored session (resend after a
+                                    reconnection: DUP set) rather than straight from publishToClient *)
 
 Definition view0 : view :=
   {| v_conn := false; v_v5 := false; v_rm := 0; v_exp := false; v_pubs := []; v_owed := []; v_pend := [];
-     v_done := []; v_seen := []; v_direct := []; v_open2 := []; v_inq := []; v_fwd := []; v_prev := []; v_err := false |}.
+     v_done := []; v_seen := []; v_direct := []; v_open2 := []; v_inq := []; v_fwd := []; v_prev := []; v_err := false; v_resent := [] |}.
 
 Definition find_pend (pid : N) (l : list pend) : option pend := find (fun p => p_pid p =? pid) l.
 Definition find_pend_uid (uid : N) (l : list pend) : option pend := find (fun p => p_uid p =? uid) l.
@@ -169,19 +171,19 @@ Definition uid_may_expire (c : cfg) (now : Z) (pubs : list omsg) (u : N) : bool 
 Definition set_session (v : view) (owed : list N) (pe : list pend) (o2 : list oexch) : view :=
   {| v_conn := v_conn v; v_v5 := v_v5 v; v_rm := v_rm v; v_exp := v_exp v; v_pubs := v_pubs v; v_owed := owed;
      v_pend := pe; v_done := v_done v; v_seen := v_seen v; v_direct := v_direct v; v_open2 := o2; v_inq := v_inq v;
-     v_fwd := v_fwd v; v_prev := v_prev v; v_err := v_err v |}.
+     v_fwd := v_fwd v; v_prev := v_prev v; v_err := v_err v; v_resent := v_resent v |}.
 Definition set_conn (v : view) (b : bool) (inq : list N) : view :=
   {| v_conn := b; v_v5 := v_v5 v; v_rm := v_rm v; v_exp := v_exp v; v_pubs := v_pubs v; v_owed := v_owed v;
      v_pend := v_pend v; v_done := v_done v; v_seen := v_seen v; v_direct := v_direct v; v_open2 := v_open2 v;
-     v_inq := inq; v_fwd := v_fwd v; v_prev := v_prev v; v_err := v_err v |}.
+     v_inq := inq; v_fwd := v_fwd v; v_prev := v_prev v; v_err := v_err v; v_resent := v_resent v |}.
 Definition set_done (v : view) (d : list N) : view :=
   {| v_conn := v_conn v; v_v5 := v_v5 v; v_rm := v_rm v; v_exp := v_exp v; v_pubs := v_pubs v; v_owed := v_owed v;
      v_pend := v_pend v; v_done := d; v_seen := v_seen v; v_direct := v_direct v; v_open2 := v_open2 v;
-     v_inq := v_inq v; v_fwd := v_fwd v; v_prev := v_prev v; v_err := v_err v |}.
+     v_inq := v_inq v; v_fwd := v_fwd v; v_prev := v_prev v; v_err := v_err v; v_resent := v_resent v |}.
 Definition set_seen (v : view) (sn dr : list N) : view :=
   {| v_conn := v_conn v; v_v5 := v_v5 v; v_rm := v_rm v; v_exp := v_exp v; v_pubs := v_pubs v; v_owed := v_owed v;
      v_pend := v_pend v; v_done := v_done v; v_seen := sn; v_direct := dr; v_open2 := v_open2 v;
-     v_inq := v_inq v; v_fwd := v_fwd v; v_prev := v_prev v; v_err := v_err v |}.
+     v_inq := v_inq v; v_fwd := v_fwd v; v_prev := v_prev v; v_err := v_err v; v_resent := v_resent v |}.
 
 (* the connection is gone: the connection-scoped bookkeeping is reset, the session too if it ends with it *)
 Definition view_drop (v : view) : view :=
@@ -197,7 +199,7 @@ Definition view_op (c : cfg) (v : view) (o : op) (ob : obs) : view :=
       let v1 := {| v_conn := v_conn v; v_v5 := v_v5 v; v_rm := v_rm v; v_exp := v_exp v; v_pubs := m :: v_pubs v;
                    v_owed := v_owed v; v_pend := v_pend v; v_done := v_done v; v_seen := v_seen v;
                    v_direct := v_direct v; v_open2 := v_open2 v; v_inq := v_inq v; v_fwd := v_fwd v;
-                   v_prev := v_prev v; v_err := v_err v |} in
+                   v_prev := v_prev v; v_err := v_err v; v_resent := v_resent v |} in
       if (0 <? q) && negb (inb uid (ob_drops ob)) then set_session v1 (v_owed v1 ++ [uid]) (v_pend v1) (v_open2 v1) else v1
   | InPublish qos pid _ uid now =>
       let o2 := if (qos =? 2) && negb (existsb (fun e => x_pid e =? pid) (v_open2 v))
@@ -225,7 +227,7 @@ Definition view_op (c : cfg) (v : view) (o : op) (ob : obs) : view :=
               {| v_conn := v_conn v; v_v5 := v_v5 v; v_rm := v_rm v; v_exp := v_exp v; v_pubs := v_pubs v;
                  v_owed := v_owed v; v_pend := del_pend pid (v_pend v); v_done := v_done v; v_seen := v_seen v;
                  v_direct := v_direct v; v_open2 := v_open2 v; v_inq := v_inq v; v_fwd := v_fwd v; v_prev := v_prev v;
-                 v_err := true |}
+                 v_err := true; v_resent := v_resent v |}
         end
   | InOther => v
   | Disconnect _ => view_drop v
@@ -234,7 +236,7 @@ Definition view_op (c : cfg) (v : view) (o : op) (ob : obs) : view :=
       let v1 := {| v_conn := true; v_v5 := v5; v_rm := if v5 then rm else 0;
                    v_exp := (v5 && (sei =? 0)) || (negb v5 && clean);
                    v_pubs := v_pubs v; v_owed := v_owed v; v_pend := v_pend v; v_done := v_done v; v_seen := v_seen v;
-                   v_direct := v_direct v; v_open2 := v_open2 v; v_inq := []; v_fwd := v_fwd v; v_prev := v_prev v; v_err := v_err v |} in
+                   v_direct := v_direct v; v_open2 := v_open2 v; v_inq := []; v_fwd := v_fwd v; v_prev := v_prev v; v_err := v_err v; v_resent := v_resent v |} in
       if sp then v1 else set_session v1 [] [] []
   | Expire now =>
       (* housekeeping may drop what is older than the maximum expiry interval, own exchanges included
@@ -249,7 +251,7 @@ Definition view_op (c : cfg) (v : view) (o : op) (ob : obs) : view :=
          v_owed := v_owed v1; v_pend := v_pend v1; v_done := v_done v1; v_seen := v_seen v1; v_direct := v_direct v1;
          v_open2 := v_open2 v1; v_inq := v_inq v1;
          v_fwd := filter (fun u => negb (existsb (fun e => old e && (x_uid e =? u)) (v_open2 v))) (v_fwd v1);
-         v_prev := v_prev v1; v_err := v_err v1 |}
+         v_prev := v_prev v1; v_err := v_err v1; v_resent := v_resent v1 |}
   end.
 
 (* one received packet *)
@@ -257,8 +259,14 @@ Definition view_pkt (direct_uid : N) (v : view) (p : out) : view :=
   match p with
   | OPkt t pid dup q uid rc =>
       if t =? T_PUBLISH then
-        let v1 := if inb uid (v_seen v) then v
+        let v0 := if inb uid (v_seen v) then v
                   else set_seen v (uid :: v_seen v) (if uid =? direct_uid then uid :: v_direct v else v_direct v) in
+        let v1 := if negb (inb uid (v_seen v)) && dup then
+                    {| v_conn := v_conn v0; v_v5 := v_v5 v0; v_rm := v_rm v0; v_exp := v_exp v0; v_pubs := v_pubs v0;
+                       v_owed := v_owed v0; v_pend := v_pend v0; v_done := v_done v0; v_seen := v_seen v0;
+                       v_direct := v_direct v0; v_open2 := v_open2 v0; v_inq := v_inq v0; v_fwd := v_fwd v0;
+                       v_prev := v_prev v0; v_err := v_err v0; v_resent := uid :: v_resent v0 |}
+                  else v0 in
         if 0 <? q then
           let pe := match find_pend pid (v_pend v1) with
                     | Some _ => v_pend v1
@@ -286,7 +294,7 @@ Definition view_step (c : cfg) (v : view) (o : op) (ob : obs) : view :=
   {| v_conn := v_conn v2; v_v5 := v_v5 v2; v_rm := v_rm v2; v_exp := v_exp v2; v_pubs := v_pubs v2; v_owed := v_owed v2;
      v_pend := v_pend v2; v_done := v_done v2; v_seen := v_seen v2; v_direct := v_direct v2; v_open2 := v_open2 v2;
      v_inq := v_inq v2; v_fwd := v_fwd v2 ++ ob_fwds ob;
-     v_prev := match ob_snap ob with Some sv => sv_infl sv | None => [] end; v_err := v_err v2 |}.
+     v_prev := match ob_snap ob with Some sv => sv_infl sv | None => [] end; v_err := v_err v2; v_resent := v_resent v2 |}.
 
 (* ====================================================================================== *)
 (* The five specifications.  A violation names its clause and the message / identifier.   *)
@@ -686,6 +694,8 @@ Definition kf_of (prop : N) (c : cfg) (s : st) (v v' : view) (t : taint) (o : op
     match find_msg (vi_uid vi) (v_pubs v), find_msg (vi_aux vi) (v_pubs v) with
     | Some m, Some m' =>
         if inb (vi_aux vi) (v_direct v) then None      (* overtaken by a message sent straight away: not explained *)
+        else if negb (inb (vi_aux vi) (v_resent v') || inb (vi_aux vi) (t_marked t)) then None
+             (* the overtaking message did not come out of GetAll (resend / held-back release): not explained *)
         else if ((m_created m' mod 65536) <=? (m_created m mod 65536))%Z then Some (tag "KF_C12_created_order")
         else None
     | _, _ => None
@@ -743,10 +753,14 @@ Definition as_step (v : val) : option (op * obs) :=
   match v with VL [o; b] => do o' <- as_op o; do b' <- as_obs b; Some (o', b') | _ => None end.
 Definition as_cfg (v : val) : option cfg :=
   match v with
-  | VL [VN mp; VN mi; VN rm; VN me] =>
+  | VL (VN mp :: VN mi :: VN rm :: VN me :: _) =>
       Some {| c_maxpid := mp; c_maxinfl := mi; c_srvrm := Z.of_N rm; c_maxexp := Z.of_N me |}
   | _ => None
   end.
+(* a fifth configuration field 1 marks a history whose packets are reported in wire order at the end of a burst
+   (write-buffer histories of C12): the component model has no write-buffer stage, only the monitor judges *)
+Definition monitor_only (v : val) : bool :=
+  match v with VL [_; _; _; _; VN 1] => true | _ => false end.
 
 Definition chk (prop : N) (c : cfg) (v : view) (o : op) (ob : obs) : option viol :=
   let v1 := view_op c v o ob in
@@ -826,7 +840,7 @@ Definition qos_engine (prop : N) (v : val) : val :=
           match rs_viol r with
           | Some (vi, Some kf, n) => verdict 3 (clause_tag prop vi) nt [VB kf; VN (N.of_nat n); VN (vi_uid vi); VN (vi_pid vi)]
           | Some (vi, None, n) => verdict 1 (clause_tag prop vi) nt [VN (N.of_nat n); VN (vi_uid vi); VN (vi_pid vi); VN (vi_aux vi)]
-          | None => if rs_agree r then verdict 0 (tag "ok") nt []
+          | None => if rs_agree r || monitor_only cv then verdict 0 (tag "ok") nt []
                     else match repaired_finding prop c h with
                          | Some kf => verdict 0 (tag "finding-not-reproduced") nt [VB kf]
                          | None => verdict 2 (tag "model") nt []
